@@ -58,6 +58,23 @@ def beta_reduce(program, cls, node, depth=3):
         if len(b) == 1 and isinstance(b[0], ast.Return) and b[0].value \
                 is not None:
             return b[0].value
+        # straight-line: single-assignment locals, then one return
+        if b and isinstance(b[-1], ast.Return) and b[-1].value is not None \
+                and all(isinstance(s, ast.Assign) and len(s.targets) == 1
+                        and isinstance(s.targets[0], ast.Name)
+                        for s in b[:-1]):
+            names = [s.targets[0].id for s in b[:-1]]
+            if len(set(names)) == len(names) and not (
+                    set(names) & {a.arg for a in f.node.args.args}):
+                env = {}
+
+                class L(ast.NodeTransformer):
+                    def visit_Name(self, x):
+                        return copy.deepcopy(env[x.id]) if x.id in env and \
+                            isinstance(x.ctx, ast.Load) else x
+                for s in b[:-1]:
+                    env[s.targets[0].id] = L().visit(copy.deepcopy(s.value))
+                return L().visit(copy.deepcopy(b[-1].value))
         return None
 
     class T(ast.NodeTransformer):
@@ -100,9 +117,55 @@ def beta_reduce(program, cls, node, depth=3):
                 def visit_Name(self, x):
                     return copy.deepcopy(m[x.id]) if x.id in m else x
             return S().visit(copy.deepcopy(e))
+    class Simplify(ast.NodeTransformer):
+        """(lambda a, *r: body)(x, y, z) -> body[a:=x, *r:=(y, z)];
+        getattr(o, 'name') -> o.name."""
+        def visit_Call(self, n):
+            n = self.generic_visit(n)
+            if isinstance(n.func, ast.Lambda) and not n.keywords and not any(
+                    isinstance(a, ast.Starred) for a in n.args):
+                la = n.func.args
+                if not (la.kwonlyargs or la.kwarg or la.defaults
+                        or la.posonlyargs):
+                    names = [a.arg for a in la.args]
+                    if len(n.args) >= len(names) and (
+                            la.vararg or len(n.args) == len(names)):
+                        m = dict(zip(names, n.args))
+                        rest = list(n.args[len(names):])
+                        va = la.vararg.arg if la.vararg else None
+
+                        class S(ast.NodeTransformer):
+                            def visit_Name(self, x):
+                                if x.id in m:
+                                    return copy.deepcopy(m[x.id])
+                                if x.id == va:
+                                    return ast.Tuple(copy.deepcopy(rest),
+                                                     ast.Load())
+                                return x
+
+                            def visit_Call(self, c):
+                                c = self.generic_visit(c)
+                                flat = []
+                                for a in c.args:
+                                    if isinstance(a, ast.Starred) and \
+                                            isinstance(a.value, ast.Tuple):
+                                        flat += a.value.elts
+                                    else:
+                                        flat.append(a)
+                                c.args = flat
+                                return c
+                        return S().visit(copy.deepcopy(n.func.body))
+            if dotted(n.func) == 'getattr' and len(n.args) == 2 \
+                    and not n.keywords and isinstance(
+                        n.args[1], ast.Constant) and isinstance(
+                            n.args[1].value, str) \
+                    and n.args[1].value.isidentifier():
+                return ast.Attribute(n.args[0], n.args[1].value, ast.Load())
+            return n
     out = copy.deepcopy(node)
     for _ in range(depth):
         out = T().visit(out)
+        out = Simplify().visit(out)
     return ast.fix_missing_locations(out)
 
 
@@ -137,7 +200,9 @@ def listener_loops(program):
             if not any(isinstance(n, ast.Attribute) and n.attr == '_events'
                        for n in ast.walk(f.node)):
                 continue
-            if not any(isinstance(n, ast.For) for n in ast.walk(f.node)):
+            # (the loop may live in a private helper the method calls)
+            if not any(isinstance(n, (ast.For, ast.Call))
+                       for n in ast.walk(f.node)):
                 continue
             exits, w = walk_method(program, f, c)
             for ex in exits:
